@@ -215,6 +215,8 @@ def malformed_cases(rng, n):
     cs.append(mk(1, inv, w2=-1.0))
     cs.append(mk(1, inv[:1], w2=-1.0))
     cs.append(mk(1, inv + [(1, 0, 5.0, 0.0, -5.0)], w2=-1.0))
+    # (observation O-K2: two inverted voters wrap `cur` twice, maxlow = maxhigh = usize::MAX, and a periodic source is selected)
+    cs.append(mk(1, inv + [(1, 0, 5.0, 0.0, -5.0)], w2=-1.0, maxunc=10.0))
     cs.append(mk(1, inv + [(0, 0, 3.5, 0.0, -0.5)], w2=-1.0))
     cs.append(mk(1, inv + [(1, 0, 3.0, 0.0, -4.0), (0, 0, 9.0, 0.0, 0.25)], w2=-1.0))
     vals = [0.0, -0.0, 0.25, 0.5, 1.0, -1.0, 2.0, INF, -INF, NAN, 1e300, -1e300, 5e-324]
@@ -378,8 +380,25 @@ def main():
 
 
 MANIFEST = {
-    "claimed": False,
-    "text": "",
-    "note": "",
+    "claimed": True,
+    "text": "Theorems (Coq, every candidate list, every minimum_agreeing_sources and maximum_source_uncertainty; f64 values as "
+            "f64::total_cmp keys, integer-only): a non-empty result of select implies a point t such that the voters "
+            "(non-periodic, synchronised, radius not above the limit) whose closed interval contains t number >= 1, >= "
+            "minimum_agreeing_sources and are a strict majority of all voters (C03_consensus; hypotheses: every voter has lo <= hi, "
+            "fewer than 2^61 candidates); without NaNs the voters are exactly the non-periodic qualifying candidates "
+            "(C03_voters_are_the_qualifying_nonperiodic); every returned snapshot is a candidate, synchronised, radius <= limit and "
+            "not NaN (C03_members_qualify); unsynchronised/too uncertain candidates can be deleted from the input without changing "
+            "the result (C03_unqualified_irrelevant); the sweep never underflows and assert_eq!(maxlow,maxhigh) cannot fail "
+            "(C03_sweep_balanced, C03_select_never_panics). Controller level (model MsgLoop, every world and schedule): select's "
+            "argument is exactly the snapshots of registered sources last reported usable (C03_only_usable); a handled message makes "
+            "clock calls only when select returned a non-empty selection, which is what is reported as used "
+            "(C03_steer_only_on_consensus_partial). Tie: select through the harness on boundary/malformed/exhaustive-small/random "
+            "lists on every run; controller level through C37's harness.",
+    "note": "Partial: the wrapper's timer path (time_update ending a slew) is not modelled (hence _partial). Trusted: Coq "
+            "kernel+vm_compute; hand-written models Select.v/MsgLoop.v; release semantics (usize wraps); the float expressions "
+            "radius/offset-+radius are evaluated by the harness with the code's accessors (text pinned by Gen/ConstSelect.v, "
+            "cross-checked in Python doubles) rather than modelled; lo <= hi (radius not negative) is a hypothesis: with negative "
+            "range weights in the configuration (unvalidated) the release build wraps `cur -= 1` and the consensus guarantee is void "
+            "(observation, outside the property's domain); slice::sort_by stable. Print Assumptions: closed under the global context.",
     "design_ref": "DESIGN.md 3 C03",
 }
